@@ -67,6 +67,7 @@ SCALED_STYLES = ["walk", "neardup", "slat"]
 MODE_MATCH = {"dtw": 2, "fdtw": 3, "frechet": 4}
 MODE_CMP = {"dtw": 106, "fdtw": 107, "frechet": 108}
 CLS_GEO2D = "geo-2d-distance-asymmetric"
+CLS_NPCOORD = "fdtw-numpy-int-coordinates-power-overflow"
 # fixed pairs of tracks of the other two classes of positions (lon, lat in degrees and a common height; geocentric metres)
 GEO_FIXED = [([[2.35, 48.85, 35.0], [2.3501, 48.8502, 35.0], [2.3503, 48.8501, 35.0]], [[2.35005, 48.85, 35.0], [2.3502, 48.8503, 35.0]]),
              ([[-70.6, -33.45, 520.0], [-70.6, -33.45, 520.0], [-70.59999, -33.45001, 520.0], [-70.5995, -33.4502, 520.0]],
@@ -569,8 +570,11 @@ class P(Prop):
             vb = rng.choice(["F", "F", "T", "default"])
             st = rng.choice(["kw", "kw", "pos"])
             steps.append(self.step(f, a, b, mode, p, pf, dim, mf, df, vb, st))
-            if f == "m" and mode != "bad" and defined(cls, dim):
-                okres.append(k)
+            tmp = {"ct": ct, "cls": cls, "tracks": tracks, "steps": steps}
+            if CLS_NPCOORD not in self.listed and self.npoverflow(tmp, steps[-1]):
+                steps[-1]["pf"] = "float"      # inputs of the class fdtw-numpy-int-coordinates-… are generated only while it is listed
+            if f == "m" and mode != "bad" and defined(cls, dim) and not self.npoverflow(tmp, steps[-1]):
+                okres.append(k)      # (no later call on the result of a call of that class)
         case = {"kind": "seq", "tracks": tracks, "pre": pre, "steps": steps}
         if cls != "enu":
             case["cls"] = cls
@@ -720,6 +724,7 @@ class P(Prop):
                     "track_with_earlier_features": any(q != "none" for q in case["pre"]),
                     "p_form": sts[0]["pf"], "p": sts[0]["p"], "mode": sts[0]["mode"], "coordinates": case.get("ct", "float"),
                     "int_distance_power_above_type_of_p": any(self.intpow(case, st) for st in sts),
+                    "int64_distance_power_above_int64": any(self.npoverflow(case, st) for st in sts),
                     "argument_style": "%s mode=%s dim=%s verbose=%s" % (sts[0]["st"], sts[0]["mf"], sts[0]["df"], sts[0]["vb"])}
         t1, t2 = pts(case["a"]), pts(case["b"])
         return {"kind": case["kind"], "mode": case["mode"], "dim": str(case["dim"]), "positions": case.get("cls", "enu"),
@@ -892,8 +897,15 @@ class P(Prop):
     def cmp_seq(self, case, impl_out, model_out):
         if "steps" not in impl_out or "steps" not in model_out:
             return "impl=%s model=%s" % (str(impl_out)[:300], str(model_out)[:300])
+        tainted = set()      # results of calls of the listed class (and of calls made on such results): not compared
         for k, st in enumerate(case["steps"]):
             io, mo = impl_out["steps"][k], model_out["steps"][k]
+            if st["a"] in tainted or st["b"] in tainted:
+                tainted.add("r%d" % k)
+                continue
+            if self.npoverflow(case, st):
+                tainted.add("r%d" % k)
+                continue     # d**p is computed in int64 there and wraps around (listed finding); the model works in float64
             if "err" in io or "err" in mo:
                 if io.get("err") != mo.get("err"):
                     return "call %d: impl=%s model=%s" % (k, str(io)[:200], str(mo)[:200])
@@ -1138,7 +1150,13 @@ class P(Prop):
         return None
 
     def classify(self, case, impl_out, msg):
-        """one class, on single calls:
+        """two classes. On sessions, a decidable predicate on the first failing call:
+        fdtw-numpy-int-coordinates-power-overflow: FDTW (match or compare) on ENUCoords tracks whose coordinates are numpy.int64, with a dim
+            that yields numpy.int64 distances (1, or a callable of the harness summing coordinate differences), p = 1, 2, 3, … handed to
+            `B**p` as an integer (a Python int, any numpy integer — int(p) since 1f009f6 —, or a lambda `A + B**k`), and some pair of
+            fixes whose distance B has B ** p above 2**63 - 1: `_fdtw` hands the raw distance to `B**p`, which numpy evaluates in int64
+            with a silent wrap-around (`_dtw` reads the distance back from a float64 array); decided from the case, see `npoverflow`.
+        On single calls:
         geo-2d-distance-asymmetric: tracks of GeoCoords whose fixes do not all have the same height, dim = 2, and the only clause
             that fails is "same score with the two tracks swapped": `GeoCoords.distance2DTo(q)` is the horizontal distance in the
             local frame of q, `q.distance2DTo(p)` in that of p, and the two horizontal planes differ (relative difference of the
@@ -1150,7 +1168,28 @@ class P(Prop):
                 and "err" not in impl_out and len({q[2] for q in pts(case["a"]) + pts(case["b"])}) > 1
                 and self.spec(case, impl_out, skip_swap=True) is None):
             return CLS_GEO2D     # everything holds but the swap clause, on GeoCoords fixes of different heights, dim = 2
+        if case.get("kind") != "seq" or not isinstance(impl_out, dict) or "steps" not in impl_out:
+            return None
+        f = self.first_failure(case, impl_out)
+        if f and self.npoverflow(case, case["steps"][f[0]]):
+            return CLS_NPCOORD
         return None
+
+    def npoverflow(self, case, st):
+        """the defect class fdtw-numpy-int-coordinates-power-overflow, recognised from the case alone (see classify)"""
+        if not (case.get("ct") == "np.int64" and case.get("cls", "enu") == "enu" and st["mode"] == "fdtw"
+                and (st["pf"] in ("int", "default", "fn") or st["pf"] in NPINT_MAX)
+                and st["p"] not in ("0", "inf") and not is_frac(st["p"]) and (st["dim"] == 1 or isinstance(st["dim"], str))):
+            return False
+        t1, t2 = self.geo(case, st["a"]), self.geo(case, st["b"])
+        k, dim = int(st["p"]), st["dim"]
+        for a in t2:
+            for b in t1:
+                if dim == "fn.lead" and a[0] - b[0] < 0:
+                    continue      # max(x1 - x2, 0.0) is the float 0.0 there: a float distance
+                if int(odist(a, b, dim)) ** k > 2 ** 63 - 1:
+                    return True
+        return False
 
     def intpow(self, case, st):
         """(input histogram only) a call whose point distances are Python ints — coordinates handed over as Python ints and dim = 1
